@@ -1,225 +1,22 @@
-(* AdaptersProofs.v — invariants of the callback-adapter model for every valid configuration (adapter, outcome,
-   timing, storage, converter) and every schedule (induction over reachability). *)
-From Cocls Require Import Base BaseProofs AdaptersDefs.
+(* AdaptersProofs.v — consequences of the invariants of the callback-adapter model (AdaptersInv.v, AdaptersStep*.v). *)
+From Cocls Require Import Base BaseProofs AdaptersDefs AdaptersInv AdaptersStep0A AdaptersStep0B AdaptersStep0C AdaptersStep1A AdaptersStep1B AdaptersStep1C AdaptersStep2A AdaptersStep2B AdaptersStep2C AdaptersLog AdaptersWeight.
 Require Import ZifyBool.
 Local Open Scope nat_scope.
 
-Inductive reachable (c : cfg) : st -> Prop :=
-| r_init : reachable c (init c)
-| r_step s i : reachable c s -> enabled s i = true -> reachable c (fst (tstep c s i)).
-
-Definition terminal (s : st) : Prop := all_enabled s = [].
-
-(* ---------- counting ---------- *)
-Fixpoint cnt (p : instr -> bool) (l : list instr) : nat :=
-  match l with [] => 0 | x :: t => (if p x then 1 else 0) + cnt p t end.
-
-Lemma cnt_app p a b : cnt p (a ++ b) = cnt p a + cnt p b.
-Proof. induction a as [|x a IH]; cbn [cnt app]; [reflexivity|rewrite IH; lia]. Qed.
-
-Definition N (p : instr -> bool) (s : st) : nat := cnt p (th0 s) + cnt p (th1 s).
-
-Definition p_claim (i : instr) := match i with IClaim | IDtorP => true | _ => false end.
-Definition p_dtor (i : instr) := match i with IDtorP => true | _ => false end.
-Definition p_res (i : instr) := match i with IResolve => true | _ => false end.
-Definition p_walk (i : instr) := match i with IWalk => true | _ => false end.
-Definition p_dtk (i : instr) := match i with IReady | ISub _ | IWalk => true | _ => false end.
-Definition p_park (i : instr) := match i with IPark => true | _ => false end.
-Definition p_xw (i : instr) := match i with IXWait => true | _ => false end.
-Definition p_cvA (i : instr) := match i with ICvClaim => true | _ => false end.
-Definition p_cvB (i : instr) := match i with ICvReady _ => true | _ => false end.
-Definition p_cvC (i : instr) := match i with ICvSet _ _ => true | _ => false end.
-Definition p_cvR (i : instr) := match i with ICvResolve => true | _ => false end.
-Definition p_cvW (i : instr) := match i with ICvWalk => true | _ => false end.
-Definition p_otk (i : instr) := match i with IOReady | IOSub _ | ICvWalk => true | _ => false end.
-
-Definition outcome_eqb (a b : outcome) : bool :=
-  match a, b with
-  | ONone, ONone => true | OCanc, OCanc => true
-  | OVal x, OVal y => Z.eqb x y | OExc x, OExc y => Z.eqb x y
-  | _, _ => false
-  end.
-Lemma outcome_eqb_eq a b : outcome_eqb a b = true -> a = b.
-Proof. destruct a, b; cbn; try discriminate; try reflexivity; intros H; apply Z.eqb_eq in H; congruence. Qed.
-Lemma outcome_eqb_refl a : outcome_eqb a a = true.
-Proof. destruct a; cbn; auto using Z.eqb_refl. Qed.
-
-Definition expected (c : cfg) : outcome := conv_result c (out_of (c_k c)).
-
-(* a converter-completion instruction whose thread-local values are not the ones the protocol guarantees *)
-Definition p_bad (c : cfg) (i : instr) : bool :=
-  match i with
-  | ICvReady g => negb g
-  | ICvSet g r => negb g || negb (outcome_eqb r (expected c))
-  | _ => false
-  end.
-
-Definition rdy (sl : slotv) : nat := match sl with SReady => 1 | _ => 0 end.
-Definition sub (sl : slotv) : nat := match sl with SSub => 1 | _ => 0 end.
-Definition b2n (b : bool) : nat := if b then 1 else 0.
-Definition is_val (k : rkind) : bool := match k with KVal _ => true | _ => false end.
-Definition hb (c : cfg) : nat := b2n (has_helper (c_ad c)).
-Definition cv (c : cfg) : nat := b2n (is_conv c).
-Definition atomic_cb (c : cfg) : bool := has_cb (c_ad c).
-
-(* the events of a completion with a user callback, all in step t *)
-Definition cb_log (c : cfg) (t : nat) : list (nat * ev) :=
-  map (fun e => (t, e))
-      ([ECb (out_of (c_k c)) (hb c) 0; ECbRet (hb c) 0]
-       ++ (if has_functor (c_ad c) then EFun (hb c) 0 :: (if c_stor c then [ESd] else []) else [])).
-
-Definition conv_log (c : cfg) (t : nat) : list (nat * ev) :=
-  match out_of (c_k c) with OVal v => [(t, EConv v (expected c))] | _ => [] end.
-
-Record Inv (c : cfg) (s : st) : Prop := {
-  i_claim : b2n (owner s) = N p_claim s;
-  i_res : rdy (slot s) + b2n (owner s) + N p_res s = 1;
-  i_pay : owner s = false -> payload s = out_of (c_k c);
-  i_dtk : nfire s + sub (slot s) + N p_dtk s = 1;
-  i_walk : N p_walk s <= rdy (slot s);
-  i_fired : nfire s <= rdy (slot s);
-  i_park : b2n (parked s) + cnt p_park (th0 s) = 0 -> cnt p_xw (th1 s) = 0;
-  i_xw : cnt p_xw (th0 s) = 0;
-  i_alloc : allocs s = hb c;
-  i_free : frees s = hb c * nfire s;
-  (* converter *)
-  i_stage : N p_cvA s + N p_cvB s + N p_cvC s + N p_cvR s + nores s = cv c * nfire s;
-  i_oprom : b2n (oprom s) + cv c * nfire s = cv c + N p_cvA s;
-  i_bad : N (p_bad c) s = 0;
-  i_nores : nores s = rdy (oslot s);
-  i_otk : ndeliv s + sub (oslot s) + N p_otk s = cv c;
-  i_cvw : N p_cvW s <= nores s;
-  i_opay : N p_cvR s + nores s >= 1 -> opayload s = expected c;
-  i_nconv : nconv s + (if is_val (c_k c) then N p_cvA s + N p_cvB s else 0) = (if is_val (c_k c) then cv c * nfire s else 0);
-  i_ndeliv : ndeliv s <= nores s;
-  i_pay0 : owner s = true -> payload s = ONone;
-  i_dtor : N p_dtor s = 0 \/ out_of (c_k c) = ONone
-}.
-
-Definition LogInv (c : cfg) (s : st) : Prop :=
-  exists t1 t2 t3,
-      log s = (if Nat.eqb (nconv s) 1 then conv_log c t1 else [])
-              ++ (if Nat.eqb (ndeliv s) 1 then [(t2, EODeliv (expected c))] else [])
-              ++ (if atomic_cb c && Nat.eqb (nfire s) 1 then cb_log c t3 else []).
-
-
-(* ---------- the invariant holds initially and is preserved by every step ---------- *)
-Lemma inv_init c : valid c = true -> Inv c (init c).
-Proof.
-  destruct c as [ad mode stor k ct cd]. unfold valid. cbn [c_mode c_stor c_ad is_mk].
-  intros V.
-  destruct mode as [|[|[|[|m]]]]; try (cbn in V; rewrite ?andb_false_r in V; discriminate);
-  destruct ad; try (cbn in V; rewrite ?andb_false_r in V; discriminate);
-  destruct k; constructor; cbn; try reflexivity; try lia; try congruence; try discriminate;
-  try (left; reflexivity); try (right; reflexivity).
-Qed.
-
-Ltac dflags s :=
-  repeat match goal with
-  | |- context[match owner s with _ => _ end] => let E := fresh "FO" in destruct (owner s) eqn:E
-  | |- context[if owner s then _ else _] => let E := fresh "FO" in destruct (owner s) eqn:E
-  | |- context[match slot s with _ => _ end] => let E := fresh "FS" in destruct (slot s) eqn:E
-  | |- context[match oslot s with _ => _ end] => let E := fresh "FOS" in destruct (oslot s) eqn:E
-  | |- context[ICvReady (oprom s)] => let E := fresh "FOP" in destruct (oprom s) eqn:E
-  | |- context[match c_ad ?c with _ => _ end] => let E := fresh "AD" in destruct (c_ad c) eqn:E
-  end.
-
-Ltac dpay s := match goal with |- context[match payload s with _ => _ end] => let E := fresh "FP" in destruct (payload s) eqn:E end.
-Ltac dth s := match goal with
-       | |- context[th0 s] => destruct (th0 s) as [|ins rest] eqn:T0; [discriminate|]
-       | |- context[th1 s] => destruct (th1 s) as [|ins rest] eqn:T0; [discriminate|]
-       end.
-Ltac fin0 := try reflexivity; try assumption; try lia; try congruence;
-  try (intros; lia); try (intros; congruence); try (intros; auto; fail);
-  try (left; lia); try (right; assumption); try (right; reflexivity);
-  try (intros; match goal with H : _ -> ?g |- ?g => apply H; lia end).
-Ltac fin := fin0;
-  try match goal with |- context[is_val (c_k ?c)] => let K := fresh "K" in destruct (c_k c) eqn:K; cbn [is_val out_of] in *; fin0 end.
-
-Ltac red1 := cbn [fst snd thr set_thr push tick set_src set_out set_cnt add_log owner parked slot payload oprom oslot opayload allocs frees th0 th1 clk nfire nconv ndeliv nores log app].
-Ltac redc := cbn [cnt p_claim p_dtor p_res p_walk p_dtk p_park p_xw p_cvA p_cvB p_cvC p_cvR p_cvW p_otk p_bad negb orb andb
-                  b2n rdy sub Nat.add has_helper has_functor has_cb is_conv].
-Ltac redch := cbn [cnt p_claim p_dtor p_res p_walk p_dtk p_park p_xw p_cvA p_cvB p_cvC p_cvR p_cvW p_otk p_bad negb orb andb
-                  b2n rdy sub Nat.add] in *|-.
-
-Ltac paystep c s I3 := match goal with
-       | FS : slot s = SReady |- _ =>
-           assert (PAY : payload s = out_of (c_k c)) by (apply I3; destruct (owner s); [cbn in *; lia|reflexivity])
-       end.
-
 Lemma inv_step c s i : Inv c s -> enabled s i = true -> Inv c (fst (tstep c s i)).
 Proof.
-  intros I E. unfold tstep, enabled in *.
-  destruct I as [I1 I2 I3 I4 I5 I6 I7 I8 I9 I10 I11 I12 I13 I14 I15 I16 I17 I18 I19 I20 I21].
-  unfold N in *.
-  assert (CV : cv c <= 1) by (unfold cv, b2n; destruct (is_conv c); lia).
-  assert (CVN : cv c * nfire s <= 1).
-  { assert (nfire s <= 1) by (destruct (slot s); cbn [rdy] in I6; lia). unfold cv, b2n; destruct (is_conv c); lia. }
-  destruct i as [|[|i]]; cbn [thr] in *; [| |discriminate].
-  all: dth s.
-  all: destruct ins; unfold exec, fire, deliver.
-  all: red1; dflags s; red1.
-  all: redch.
-  all: try paystep c s I3.
-  all: try (dpay s; red1).
-  all: try match goal with
-       | H : context[outcome_eqb ?r ?e] |- _ =>
-           let Q := fresh "Q" in destruct (outcome_eqb r e) eqn:Q; [apply outcome_eqb_eq in Q; subst r|]; redch
-       end.
-  all: try match goal with g : bool |- _ => destruct g; redch end.
-  all: try (rewrite FP in PAY; try rewrite <- PAY in * ).
-  all: try (specialize (I20 eq_refl)).
-  all: try (specialize (I3 eq_refl)).
-  all: try (destruct I21 as [I21|I21]).
-  all: try (unfold hb, cv, is_conv in *; rewrite AD in *; cbn [has_helper b2n Nat.mul] in * ).
-  all: constructor; unfold N; red1; try (unfold hb, cv, is_conv; rewrite AD; cbn [has_helper b2n Nat.mul]); redc; unfold expected in *; try rewrite <- PAY in *; cbn [conv_result]; rewrite ?outcome_eqb_refl; redc.
-  all: fin.
+  intros I E. unfold tstep.
+  destruct i as [|[|[|i]]]; cbn [thr]; [| | |unfold enabled in E; cbn [thr] in E; discriminate].
+  - destruct (th0 s) as [|ins rest] eqn:T; [unfold enabled in E; cbn [thr] in E; rewrite T in E; discriminate|].
+    destruct (groups_cover ins) as [G|[G|G]]; [apply inv_step0A|apply inv_step0B|apply inv_step0C]; assumption.
+  - destruct (th1 s) as [|ins rest] eqn:T; [unfold enabled in E; cbn [thr] in E; rewrite T in E; discriminate|].
+    destruct (groups_cover ins) as [G|[G|G]]; [apply inv_step1A|apply inv_step1B|apply inv_step1C]; assumption.
+  - destruct (th2 s) as [|ins rest] eqn:T; [unfold enabled in E; cbn [thr] in E; rewrite T in E; discriminate|].
+    destruct (groups_cover ins) as [G|[G|G]]; [apply inv_step2A|apply inv_step2B|apply inv_step2C]; assumption.
 Qed.
 
 Theorem inv_reachable c s : valid c = true -> reachable c s -> Inv c s.
 Proof. intros V R. induction R; [apply inv_init; exact V|apply inv_step; assumption]. Qed.
-
-(* ---------- the event log has exactly the shape the counters dictate ---------- *)
-
-Lemma loginv_init c : LogInv c (init c).
-Proof. exists 0, 0, 0. cbn. rewrite andb_false_r. reflexivity. Qed.
-
-Lemma loginv_step c s i : Inv c s -> LogInv c s -> enabled s i = true -> LogInv c (fst (tstep c s i)).
-Proof.
-  intros I (t1 & t2 & t3 & L) E. unfold tstep, enabled in *.
-  destruct I as [I1 I2 I3 I4 I5 I6 I7 I8 I9 I10 I11 I12 I13 I14 I15 I16 I17 I18 I19 I20 I21].
-  unfold N in *.
-  assert (CV : cv c <= 1) by (unfold cv, b2n; destruct (is_conv c); lia).
-  assert (CVN : cv c * nfire s <= 1).
-  { assert (nfire s <= 1) by (destruct (slot s); cbn [rdy] in I6; lia). unfold cv, b2n; destruct (is_conv c); lia. }
-  unfold LogInv.
-  destruct i as [|[|i]]; cbn [thr] in *; [| |discriminate].
-  all: dth s.
-  all: destruct ins; unfold exec, fire, deliver.
-  all: red1; dflags s; red1.
-  all: try (exists t1, t2, t3; exact L).
-  all: redch.
-  all: try (assert (PAY : payload s = out_of (c_k c)) by (apply I3; destruct (owner s), (slot s); cbn [b2n rdy] in *; try reflexivity; lia)).
-  all: try (dpay s; red1).
-  all: try match goal with g : bool |- _ => destruct g; red1 end.
-  all: try (exists t1, t2, t3; exact L).
-  (* completions that do not log a callback *)
-  all: try (unfold atomic_cb in *; rewrite AD in *; cbn [has_cb andb] in *; exists t1, t2, t3; exact L).
-  (* completions with a user callback *)
-  all: try (assert (NF : nfire s = 0) by lia; rewrite NF in *; cbn [Nat.eqb andb] in *;
-            rewrite andb_false_r in L; rewrite andb_true_r;
-            exists t1, t2, (S (clk s)); rewrite L; rewrite <- !app_assoc; cbn [app];
-            unfold atomic_cb, cb_log, hb; rewrite AD, I9, I10, PAY; unfold hb; rewrite AD, Nat.mul_0_r; reflexivity).
-  (* deliveries and conversions: only the converter adapter has them *)
-  all: assert (CV1 : cv c = 1) by lia.
-  all: unfold cv, is_conv, atomic_cb in *; destruct (c_ad c) eqn:AD; try discriminate; cbn [has_cb andb b2n Nat.mul] in *.
-  all: try (assert (ND : ndeliv s = 0) by lia; assert (OP : opayload s = expected c) by (apply I17; lia);
-            rewrite ND, OP in *; cbn [Nat.eqb] in *; exists t1, (S (clk s)), t3; rewrite L, !app_nil_r; reflexivity).
-  all: try (assert (NC : nconv s = 0) by (destruct (c_k c); cbn [is_val] in I18; lia);
-            assert (ND : ndeliv s = 0) by lia;
-            rewrite NC, ND in *; cbn [Nat.eqb app] in *; exists (S (clk s)), t2, t3; rewrite L;
-            unfold conv_log, expected; rewrite <- PAY; cbn [conv_result app map]; reflexivity).
-Qed.
 
 Theorem loginv_reachable c s : valid c = true -> reachable c s -> LogInv c s.
 Proof.
@@ -228,65 +25,93 @@ Proof.
 Qed.
 
 (* ---------- consequences ---------- *)
-(* no deadlock: when no thread can move, both threads have run to completion *)
-Theorem terminal_done c s : valid c = true -> reachable c s -> terminal s -> th0 s = [] /\ th1 s = [].
+(* no deadlock: when no thread can move, all threads have run to completion *)
+Theorem terminal_done c s : valid c = true -> reachable c s -> terminal s -> th0 s = [] /\ th1 s = [] /\ th2 s = [].
 Proof.
-  intros V R T. destruct (inv_reachable c s V R) as [_ _ _ _ _ _ I7 I8 _ _ _ _ _ _ _ _ _ _ _ _ _].
+  intros V R T. pose proof (inv_reachable c s V R) as I.
   unfold terminal, all_enabled, enabled in T. cbn [thr] in T.
+  apply app_eq_nil in T. destruct T as [T0 T]. apply app_eq_nil in T. destruct T as [T1 T2].
   assert (A : th0 s = []).
-  { destruct (th0 s) as [|ins rest]; [reflexivity|].
-    destruct ins; cbn [cnt p_xw] in I8; try discriminate; try lia;
-      destruct (match th1 s with [] => false | IXWait :: _ => parked s | _ => true end); discriminate. }
-  split; [exact A|]. rewrite A in *. cbn [cnt app] in *.
-  destruct (th1 s) as [|ins rest]; [reflexivity|].
+  { pose proof (i_xw c s I) as I8. pose proof (i_ow0 c s I) as W0.
+    destruct (th0 s) as [|ins rest]; [reflexivity|].
+    destruct ins; cbn [cnt p_xw p_ow] in I8, W0; try discriminate; lia. }
+  pose proof (i_park c s I) as I7. rewrite A in I7. cbn [cnt Nat.add] in I7.
+  assert (B : th1 s = []).
+  { pose proof (i_ow1 c s I) as W1.
+    destruct (th1 s) as [|ins rest]; [reflexivity|].
+    destruct ins; cbn [cnt p_xw p_ow] in I7, W1; try discriminate; try lia.
+    destruct (parked s); [discriminate|]. cbn [b2n] in I7. specialize (I7 eq_refl). lia. }
+  split; [exact A|]. split; [exact B|].
+  destruct (th2 s) as [|ins rest] eqn:C; [reflexivity|]. exfalso.
   destruct ins; try discriminate.
-  destruct (parked s); [discriminate|]. cbn [b2n cnt p_xw] in I7. specialize (I7 eq_refl). lia.
+  - (* waits for the promise to be parked: it has been *)
+    rewrite B in I7. cbn [cnt p_xw Nat.add] in I7.
+    destruct (parked s); [discriminate|]. cbn [b2n] in I7. specialize (I7 eq_refl). lia.
+  - (* the late resolver: either the converter forwarded the promise or the outer future is ready *)
+    destruct I as [I1 I2 I3 I4 I5 I6 _ I8 I9 I10 I11 I12 Itok Iph IphB Iowc Ip4 Irp Ioht Iocc I13 Ioh Iop0 Idec Iow0 Iow1 Iow2 I14 I15 I16 I17 I18 I19 I20 I21 I22 I23 I24 I25 I26 I27 I28 I29 I30 I31 I32 I33 I34 I35].
+    unfold N in *. rewrite A, B, C in *.
+    destruct Iow2 as [W|W]; [|cbn [cnt p_ow] in W; lia]. inversion W; subst rest. cbn [cnt p_claim p_res p_dtk p_cvA p_cvB p_cvC p_cvP p_cvD p_cvR p_ow p_oc Nat.add] in *.
+    assert (O : owner s = false) by (destruct (owner s); [cbn [b2n] in I1; lia|reflexivity]). rewrite O in *. cbn [b2n Nat.add] in *.
+    assert (S1 : slot s = SReady) by (destruct (slot s); cbn [rdy] in I2; try discriminate; reflexivity).
+    rewrite S1 in *. cbn [rdy sub Nat.add] in *.
+    assert (F : nfire s = 1) by lia. rewrite F in *. rewrite Nat.mul_1_r in *.
+    assert (RP : rp c = true) by (destruct (rp c); [reflexivity|cbn [b2n] in Iowc; lia]).
+    assert (CV1 : cv c = 1).
+    { unfold rp in RP. apply andb_prop in RP. destruct RP as [RP _]. unfold cv. rewrite RP. reflexivity. }
+    rewrite CV1 in *.
+    destruct (oheld s); [discriminate|]. cbn [on] in *.
+    assert (NR : nores s = 1) by lia. rewrite NR in I14.
+    destruct (oslot s); cbn [rdy] in I14; try discriminate.
 Qed.
 
 Record Final (c : cfg) (s : st) : Prop := {
   f_ready : slot s = SReady;
   f_owner : owner s = false;
-  f_payload : payload s = out_of (c_k c);
+  f_payload : payload s = wout c s;
+  f_won : won s = 1 \/ won s = 2;
   f_fired : nfire s = 1;
   f_freed : frees s = allocs s;
   f_allocs : allocs s = hb c;
   f_nores : nores s = cv c;
   f_ndeliv : ndeliv s = cv c;
-  f_nconv : nconv s = if is_val (c_k c) then cv c else 0;
-  f_outer : is_conv c = true -> oslot s = SReady /\ opayload s = expected c;
+  f_nconv : nconv s = if isv (payload s) then cv c else 0;
+  f_outer : is_conv c = true -> oslot s = SReady /\ opayload s = expected c s;
   f_oprom : oprom s = false
 }.
 
 Theorem terminal_final c s : valid c = true -> reachable c s -> terminal s -> Final c s.
 Proof.
-  intros V R T. destruct (terminal_done c s V R T) as [A B].
-  destruct (inv_reachable c s V R) as [I1 I2 I3 I4 I5 I6 I7 I8 I9 I10 I11 I12 I13 I14 I15 I16 I17 I18 I19 I20 I21].
-  unfold N in *. rewrite A, B in *. cbn [cnt Nat.add] in *.
-  assert (O : owner s = false) by (destruct (owner s); [discriminate|reflexivity]).
+  intros V R T. destruct (terminal_done c s V R T) as (A & B & C).
+  destruct (inv_reachable c s V R) as [I1 I2 I3 I4 I5 I6 I7 I8 I9 I10 I11 I12 Itok Iph IphB Iowc Ip4 Irp Ioht Iocc I13 Ioh Iop0 Idec Iow0 Iow1 Iow2 I14 I15 I16 I17 I18 I19 I20 I21 I22 I23 I24 I25 I26 I27 I28 I29 I30 I31 I32 I33 I34 I35].
+  unfold N in *. rewrite A, B, C in *. cbn [cnt Nat.add] in *.
+  assert (O : owner s = false) by (destruct (owner s); [cbn [b2n] in I1; lia|reflexivity]).
   rewrite O in *. cbn [b2n Nat.add] in *.
   assert (S1 : slot s = SReady) by (destruct (slot s); cbn [rdy] in I2; try discriminate; reflexivity).
   rewrite S1 in *. cbn [rdy sub Nat.add] in *.
   assert (F : nfire s = 1) by lia. rewrite F in *. rewrite Nat.mul_1_r in *.
+  assert (OP : oprom s = false) by (destruct (oprom s); [cbn [b2n] in I12; lia|reflexivity]).
+  assert (PH : pheld s = false) by (destruct (pheld s); [cbn [b2n] in Iph; lia|reflexivity]).
+  assert (OH : on (oheld s) = 0) by lia.
+  rewrite OP, PH, OH in *. cbn [b2n Nat.add] in *.
   assert (OS : cv c = 1 -> oslot s = SReady).
   { intros Q. destruct (oslot s); cbn [rdy] in I14; try reflexivity; lia. }
   constructor; try assumption; try lia; auto.
   - assert (sub (oslot s) = 0).
     { destruct (oslot s) eqn:Q; cbn [sub rdy] in *; try reflexivity. lia. }
     lia.
-  - destruct (is_val (c_k c)); lia.
+  - destruct (isv (payload s)); lia.
   - intros Q. unfold cv in *. rewrite Q in *. cbn [b2n] in *. split; [apply OS; reflexivity|apply I17; lia].
-  - destruct (oprom s); [|reflexivity]. cbn [b2n] in I12. lia.
 Qed.
 
 (* the user callback is entered at most once in every reachable state ... *)
-Lemma filter_cb_conv_log c t : filter is_cb (conv_log c t) = [].
-Proof. unfold conv_log. destruct (out_of (c_k c)); reflexivity. Qed.
+Lemma filter_cb_conv_log c o t : filter is_cb (conv_log c o t) = [].
+Proof. unfold conv_log. destruct o; reflexivity. Qed.
 
-Lemma filter_cb_cb_log c t : length (filter is_cb (cb_log c t)) = 1.
+Lemma filter_cb_cb_log c o t : length (filter is_cb (cb_log c o t)) = 1.
 Proof.
   unfold cb_log. cbn [map app filter is_cb snd length].
   destruct (has_functor (c_ad c)); [|reflexivity]. cbn [map filter is_cb snd].
-  destruct (c_stor c); reflexivity.
+  destruct (has_sd (c_stor c)); reflexivity.
 Qed.
 
 Definition ncb (s : st) : nat := length (filter is_cb (log s)).
@@ -307,74 +132,106 @@ Proof. intros V R. rewrite (ncb_shape c s V R). destruct (atomic_cb c && Nat.eqb
 Theorem fires_exactly_once c s : valid c = true -> reachable c s -> terminal s ->
   ncb s = b2n (has_cb (c_ad c)).
 Proof.
-  intros V R T. rewrite (ncb_shape c s V R). destruct (terminal_final c s V R T) as [_ _ _ F _ _ _ _ _ _ _].
-  rewrite F. unfold atomic_cb. destruct (has_cb (c_ad c)); reflexivity.
+  intros V R T. rewrite (ncb_shape c s V R). rewrite (f_fired c s (terminal_final c s V R T)).
+  unfold atomic_cb. destruct (has_cb (c_ad c)); reflexivity.
 Qed.
 
-(* every callback invocation sees exactly the resolver's outcome, with the helper block allocated and not yet freed *)
+(* every callback invocation sees exactly the outcome the source future holds, with the helper block allocated and
+   not yet freed; that outcome is the one of the resolver that won the claim ... *)
 Theorem right_outcome c s t o al fr : valid c = true -> reachable c s ->
-  In (t, ECb o al fr) (log s) -> o = out_of (c_k c) /\ al = hb c /\ fr = 0.
+  In (t, ECb o al fr) (log s) -> o = payload s /\ o = wout c s /\ al = hb c /\ fr = 0.
 Proof.
   intros V R H. destruct (loginv_reachable c s V R) as (t1 & t2 & t3 & L). rewrite L in H.
   apply in_app_or in H. destruct H as [H|H].
   { destruct (Nat.eqb (nconv s) 1); [|destruct H]. unfold conv_log in H.
-    destruct (out_of (c_k c)); cbn [In] in H; try contradiction. destruct H as [H|[]]. discriminate. }
+    destruct (payload s); cbn [In] in H; try contradiction. destruct H as [H|[]]. discriminate. }
   apply in_app_or in H. destruct H as [H|H].
   { destruct (Nat.eqb (ndeliv s) 1); [|destruct H]. destruct H as [H|[]]. discriminate. }
-  destruct (atomic_cb c && Nat.eqb (nfire s) 1); [|destruct H].
+  destruct (atomic_cb c && Nat.eqb (nfire s) 1) eqn:Q; [|destruct H].
+  assert (P : payload s = wout c s).
+  { pose proof (inv_reachable c s V R) as II. pose proof (i_res c s II) as I2. pose proof (i_pay c s II) as I3. pose proof (i_fired c s II) as I6.
+    apply I3. apply andb_prop in Q. destruct Q as [_ Q]. apply Nat.eqb_eq in Q. rewrite Q in I6.
+    destruct (slot s); cbn [rdy] in *; try lia. destruct (owner s); [cbn [b2n] in I2; lia|reflexivity]. }
   unfold cb_log in H. cbn [map app] in H.
   destruct H as [H|[H|H]]; try discriminate.
-  - inversion H. auto.
+  - inversion H. subst. auto.
   - destruct (has_functor (c_ad c)); [|destruct H]. cbn [map] in H. destruct H as [H|H]; [discriminate|].
-    destruct (c_stor c); [destruct H as [H|[]]|destruct H]; discriminate.
+    destruct (has_sd (c_stor c)); [destruct H as [H|[]]|destruct H]; discriminate.
+Qed.
+
+(* ... i.e. of the call that returned true: at most one call returns true; the competitor's call returned true iff it
+   won; without a competitor the outcome is the declared one; with one, the primary's call returned true iff it won *)
+Theorem winner_facts c s : valid c = true -> reachable c s ->
+  (ret1 s = Some true -> ret2 s = Some true -> False) /\
+  (ret1 s = Some true -> wout c s = out_of (c_k c)) /\
+  (ret2 s = Some true -> exists k2, c_k2 c = Some k2 /\ wout c s = out_of k2) /\
+  (c_k2 c = None -> wout c s = out_of (c_k c) /\ ret2 s = None) /\
+  (c_k2 c <> None -> owner s = false -> (ret1 s = Some true /\ ret2 s <> Some true) \/ (ret2 s = Some true /\ ret1 s <> Some true)).
+Proof.
+  intros V R.
+  pose proof (inv_reachable c s V R) as II. pose proof (i_won0 c s II) as I22. pose proof (i_won c s II) as I23. pose proof (i_ret1 c s II) as I24. pose proof (i_ret2 c s II) as I25.
+  pose proof (i_c0 c s II) as I28. pose proof (i_c2k c s II) as I29. pose proof (i_r2k c s II) as I30. pose proof (i_w1 c s II) as I31.
+  unfold wout, kind_of. split; [|split; [|split; [|split]]].
+  - intros A B. apply I24 in A. apply I25 in B. congruence.
+  - intros A. apply I24 in A. rewrite A. reflexivity.
+  - intros B. assert (ret2 s <> None) as NB by congruence. apply I30 in NB. apply I25 in B. rewrite B.
+    destruct (c_k2 c) as [k2|]; [|congruence]. exists k2. auto.
+  - intros K. split.
+    + destruct (won s) as [|[|[|w]]] eqn:W; try reflexivity.
+      exfalso. assert (ret2 s = Some true) as B by (apply I25; reflexivity). apply I30; [congruence|exact K].
+    + destruct (ret2 s) as [b|] eqn:B; [|reflexivity]. exfalso. apply I30; [discriminate|exact K].
+  - intros K O. destruct (I23 O) as [W|W].
+    + left. destruct (I31 W) as [A|A]; [|contradiction]. split; [exact A|]. intros B. apply I25 in B. congruence.
+    + right. assert (ret2 s = Some true) as B by (apply I25; exact W). split; [exact B|]. intros A. apply I24 in A. congruence.
 Qed.
 
 (* the helper block is released at most once, never before the callback has returned, and exactly once at the end *)
 Theorem released_once c s : valid c = true -> reachable c s ->
   frees s <= allocs s /\ allocs s = hb c /\
-  (frees s >= 1 -> atomic_cb c = true -> exists pre t, log s = pre ++ cb_log c t) /\
+  (frees s >= 1 -> atomic_cb c = true -> exists pre t, log s = pre ++ cb_log c (payload s) t) /\
   (terminal s -> frees s = allocs s).
 Proof.
-  intros V R. destruct (inv_reachable c s V R) as [_ _ _ I4 _ I6 _ _ I9 I10 _ _ _ _ _ _ _ _ _ _ _].
+  intros V R. pose proof (inv_reachable c s V R) as II. pose proof (i_dtk c s II) as I4. pose proof (i_fired c s II) as I6. pose proof (i_alloc c s II) as I9. pose proof (i_free c s II) as I10.
   assert (NF : nfire s <= 1) by (destruct (slot s); cbn [rdy] in I6; lia).
   repeat split.
-  - rewrite I9, I10. destruct (nfire s) as [|[|n]]; lia.
+  - rewrite I9. destruct (nfire s) as [|[|n]]; lia.
   - exact I9.
   - intros F A. destruct (loginv_reachable c s V R) as (t1 & t2 & t3 & L).
     assert (nfire s = 1) by (destruct (nfire s) as [|[|n]]; lia).
     rewrite H, A in L. cbn [Nat.eqb andb] in L. rewrite L, app_assoc. eauto.
-  - intros T. destruct (terminal_final c s V R T) as [_ _ _ _ F _ _ _ _ _ _]. exact F.
+  - intros T. exact (f_freed c s (terminal_final c s V R T)).
 Qed.
 
 (* converter adapter: at the end the outer future holds exactly the converted value / the converter's exception /
    the source's exception, it was resolved once, delivered once, and the converter ran once iff there was a value *)
 Theorem conv_final c s : valid c = true -> is_conv c = true -> reachable c s -> terminal s ->
-  oslot s = SReady /\ opayload s = expected c /\ nores s = 1 /\ ndeliv s = 1 /\
-  nconv s = b2n (is_val (c_k c)) /\
-  exists t1 t2, log s = conv_log c t1 ++ [(t2, EODeliv (expected c))].
+  oslot s = SReady /\ opayload s = conv_result c (wout c s) /\ nores s = 1 /\ ndeliv s = 1 /\
+  nconv s = b2n (isv (wout c s)) /\
+  exists t1 t2, log s = conv_log c (wout c s) t1 ++ [(t2, EODeliv (conv_result c (wout c s)))].
 Proof.
-  intros V C R T. destruct (terminal_final c s V R T) as [_ _ _ F _ _ NR ND NC O _].
-  destruct (O C) as [O1 O2]. unfold cv in *. rewrite C in *. cbn [b2n] in *.
+  intros V C R T. destruct (terminal_final c s V R T) as [_ _ P _ F _ _ NR ND NC O _].
+  destruct (O C) as [O1 O2]. unfold cv, expected in *. rewrite C in *. cbn [b2n] in *. rewrite <- P.
   repeat split; try assumption.
   destruct (loginv_reachable c s V R) as (t1 & t2 & t3 & L).
-    rewrite ND, F in L. unfold atomic_cb in L. unfold is_conv in C. destruct (c_ad c); try discriminate.
-    cbn [has_cb andb Nat.eqb] in L. rewrite app_nil_r in L.
-    rewrite NC in L. exists t1, t2. rewrite L. unfold conv_log.
-    destruct (c_k c); cbn [is_val out_of Nat.eqb]; reflexivity.
+  rewrite ND, F in L. unfold atomic_cb, expected in L. unfold is_conv in C. destruct (c_ad c); try discriminate.
+  cbn [has_cb andb Nat.eqb] in L. rewrite app_nil_r in L.
+  rewrite NC in L. exists t1, t2. rewrite L. unfold conv_log.
+  destruct (payload s); cbn [isv Nat.eqb]; reflexivity.
 Qed.
 
 (* safety half, in every reachable state: the outer future is resolved at most once, the converter runs at most once
    and only on a value, and a ready outer future holds the expected result *)
 Theorem conv_safe c s : valid c = true -> reachable c s ->
-  nores s <= 1 /\ nconv s <= b2n (is_val (c_k c)) /\ ndeliv s <= nores s /\
-  (oslot s = SReady -> opayload s = expected c).
+  nores s <= 1 /\ nconv s <= b2n (isv (payload s)) /\ ndeliv s <= nores s /\
+  (oslot s = SReady -> opayload s = conv_result c (payload s)).
 Proof.
-  intros V R. destruct (inv_reachable c s V R) as [_ _ _ _ _ I6 _ _ _ _ I11 _ _ I14 _ _ I17 I18 I19 _ _].
+  intros V R. pose proof (inv_reachable c s V R) as II. pose proof (i_fired c s II) as I6. pose proof (i_tok c s II) as Itok. pose proof (i_nores c s II) as I14. pose proof (i_opay c s II) as I17. pose proof (i_nconv c s II) as I18. pose proof (i_ndeliv c s II) as I19. pose proof (i_stage c s II) as I11.
   assert (NF : nfire s <= 1) by (destruct (slot s); cbn [rdy] in I6; lia).
   assert (CV : cv c * nfire s <= 1).
   { unfold cv, b2n. destruct (is_conv c); lia. }
+  assert (CV1 : cv c <= 1) by (unfold cv, b2n; destruct (is_conv c); lia).
   repeat split; try lia.
-  - destruct (is_val (c_k c)); cbn [b2n]; lia.
+  - destruct (isv (payload s)); cbn [b2n]; lia.
   - intros Q. rewrite Q in I14. cbn [rdy] in I14. apply I17. lia.
 Qed.
 
@@ -383,7 +240,20 @@ Lemma in_all_enabled s i : In i (all_enabled s) -> enabled s i = true.
 Proof.
   unfold all_enabled. intros H. apply in_app_or in H. destruct H as [H|H].
   - destruct (enabled s 0) eqn:Q; [|destruct H]. destruct H as [<-|[]]. exact Q.
-  - destruct (enabled s 1) eqn:Q; [|destruct H]. destruct H as [<-|[]]. exact Q.
+  - apply in_app_or in H. destruct H as [H|H].
+    + destruct (enabled s 1) eqn:Q; [|destruct H]. destruct H as [<-|[]]. exact Q.
+    + destruct (enabled s 2) eqn:Q; [|destruct H]. destruct H as [<-|[]]. exact Q.
+Qed.
+
+Lemma sched_pick_enabled s e en sched :
+  all_enabled s = e :: en ->
+  enabled s (nth (Z.to_nat ((match sched with [] => 0%Z | x :: _ => Z.abs x end) mod zlen (e :: en))) (e :: en) 0) = true.
+Proof.
+  intros EN. apply in_all_enabled. rewrite EN. apply nth_In.
+  set (k := match sched with [] => 0%Z | x :: _ => Z.abs x end).
+  assert (0 <= k)%Z by (unfold k; destruct sched; lia).
+  unfold zlen. cbn [length].
+  pose proof (Z.mod_pos_bound k (Z.of_nat (S (length en))) ltac:(lia)). lia.
 Qed.
 
 Theorem run_sched_reachable c fuel : forall s sched tr,
@@ -391,48 +261,14 @@ Theorem run_sched_reachable c fuel : forall s sched tr,
 Proof.
   induction fuel as [|f IH]; intros s sched tr R; cbn [run_sched]; [exact R|].
   destruct (all_enabled s) as [|e en] eqn:EN; [exact R|].
-  set (k := match sched with [] => 0%Z | x :: _ => Z.abs x end).
-  set (i := nth (Z.to_nat (k mod zlen (e :: en))) (e :: en) 0).
-  assert (E : enabled s i = true).
-  { apply in_all_enabled. rewrite EN. apply nth_In.
-    assert (0 <= k)%Z by (unfold k; destruct sched; lia).
-    unfold zlen. cbn [length].
-    pose proof (Z.mod_pos_bound k (Z.of_nat (S (length en))) ltac:(lia)). lia. }
+  pose proof (sched_pick_enabled s e en sched EN) as E.
+  set (i := nth _ (e :: en) 0) in *.
   destruct (tstep c s i) as [s1 p] eqn:TS.
   apply IH. replace s1 with (fst (tstep c s i)) by (rewrite TS; reflexivity).
   apply r_step; assumption.
 Qed.
 
-(* ---------- termination: every step consumes potential, so every schedule ends after at most `weight (init c)` steps ---------- *)
-Definition w (i : instr) : nat :=
-  match i with
-  | IPriv _ | IPark | IXWait | ICvWalk => 1
-  | ICvResolve => 2 | ICvSet _ _ => 3 | ICvReady _ => 4 | ICvClaim => 5
-  | IWalk => 7 | ISub _ => 8 | IReady => 9 | IResolve => 8 | IClaim | IDtorP => 9
-  | IOSub _ => 2 | IOReady => 3
-  end.
-Fixpoint wl (l : list instr) : nat := match l with [] => 0 | x :: t => w x + wl t end.
-Definition weight (s : st) : nat := wl (th0 s) + wl (th1 s).
-
-Lemma weight_step c s i : Inv c s -> enabled s i = true -> weight (fst (tstep c s i)) < weight s.
-Proof.
-  intros I E. unfold tstep, enabled, weight in *.
-  destruct I as [I1 I2 I3 I4 I5 I6 I7 I8 I9 I10 I11 I12 I13 I14 I15 I16 I17 I18 I19 I20 I21].
-  unfold N in *.
-  assert (CV : cv c <= 1) by (unfold cv, b2n; destruct (is_conv c); lia).
-  assert (CVN : cv c * nfire s <= 1).
-  { assert (nfire s <= 1) by (destruct (slot s); cbn [rdy] in I6; lia). unfold cv, b2n; destruct (is_conv c); lia. }
-  destruct i as [|[|i]]; cbn [thr] in *; [| |discriminate].
-  all: dth s.
-  all: destruct ins; unfold exec, fire, deliver.
-  all: red1; dflags s; red1.
-  all: try (dpay s).
-  all: try match goal with g : bool |- _ => destruct g end.
-  all: red1; cbn [wl w app].
-  all: redch.
-  all: try lia.
-Qed.
-
+(* ---------- termination (the potential function and its step lemma are in AdaptersWeight.v) ---------- *)
 Lemma wl_pos l : l <> [] -> wl l >= 1.
 Proof. destruct l as [|x t]; [congruence|]. intros _. cbn [wl]. destruct x; cbn [w]; lia. Qed.
 
@@ -440,8 +276,9 @@ Lemma weight_zero_terminal s : weight s = 0 -> terminal s.
 Proof.
   unfold weight, terminal, all_enabled, enabled. cbn [thr]. intros H.
   destruct (th0 s) as [|a l0]; [|pose proof (wl_pos (a :: l0) ltac:(discriminate)); lia].
-  destruct (th1 s) as [|b l1]; [reflexivity|].
-  pose proof (wl_pos (b :: l1) ltac:(discriminate)) as P. change (wl []) with 0 in H. lia.
+  destruct (th1 s) as [|b l1]; [|pose proof (wl_pos (b :: l1) ltac:(discriminate)) as P; change (wl []) with 0 in H; lia].
+  destruct (th2 s) as [|d l2]; [reflexivity|].
+  pose proof (wl_pos (d :: l2) ltac:(discriminate)) as P. change (wl []) with 0 in H. lia.
 Qed.
 
 Theorem run_terminates c fuel : forall s sched tr,
@@ -450,13 +287,8 @@ Proof.
   induction fuel as [|f IH]; intros s sched tr V R W; cbn [run_sched].
   - cbn [fst]. apply weight_zero_terminal. lia.
   - destruct (all_enabled s) as [|e en] eqn:EN; [exact EN|].
-    set (k := match sched with [] => 0%Z | x :: _ => Z.abs x end).
-    set (i := nth (Z.to_nat (k mod zlen (e :: en))) (e :: en) 0).
-    assert (E : enabled s i = true).
-    { apply in_all_enabled. rewrite EN. apply nth_In.
-      assert (0 <= k)%Z by (unfold k; destruct sched; lia).
-      unfold zlen. cbn [length].
-      pose proof (Z.mod_pos_bound k (Z.of_nat (S (length en))) ltac:(lia)). lia. }
+    pose proof (sched_pick_enabled s e en sched EN) as E.
+    set (i := nth _ (e :: en) 0) in *.
     pose proof (weight_step c s i (inv_reachable c s V R) E) as WS.
     destruct (tstep c s i) as [s1 p] eqn:TS. cbn [fst] in WS.
     apply IH; [exact V| |lia].
@@ -464,17 +296,18 @@ Proof.
     apply r_step; assumption.
 Qed.
 
-Lemma weight_init c : valid c = true -> weight (init c) <= 60.
+Lemma weight_init c : valid c = true -> weight (init c) <= 90.
 Proof.
-  destruct c as [ad mode stor k ct cd]. unfold valid. cbn [c_mode c_stor c_ad is_mk].
+  destruct c as [ad mode stor k k2 ct cd]. unfold valid. cbn [c_mode c_stor c_ad c_k2 is_mk].
   intros V.
   destruct mode as [|[|[|[|m]]]]; try (cbn in V; rewrite ?andb_false_r in V; discriminate);
   destruct ad; try (cbn in V; rewrite ?andb_false_r in V; discriminate);
-  destruct k; cbn; lia.
+  destruct stor as [|[|[|[|[|st]]]]]; try (cbn in V; rewrite ?andb_false_r in V; discriminate);
+  destruct k2 as [kk|]; destruct k; cbn; try (destruct (Nat.eqb ct 4)); cbn; lia.
 Qed.
 
-(* every schedule of every valid configuration ends, within 60 steps, in a terminal state *)
-Theorem every_schedule_terminates c sched fuel : valid c = true -> 60 <= fuel ->
+(* every schedule of every valid configuration ends, within 90 steps, in a terminal state *)
+Theorem every_schedule_terminates c sched fuel : valid c = true -> 90 <= fuel ->
   terminal (fst (run_sched c fuel (init c) sched [])).
 Proof.
   intros V F. apply run_terminates; [exact V|apply r_init|]. pose proof (weight_init c V). lia.
